@@ -90,6 +90,15 @@ func VerifC09_ConsensusFees() {
 	// validators submit arbitrary estimates through the real message handler
 	csrv := consensuskeeper.NewMsgServerImpl(*env.Consensus)
 	gas := sym.Uint64("gas")
+	// a validator bonded after the snapshot was taken (not a snapshot member) may submit too
+	env.AddValidator(3, 10_000_000, ChainA)
+	if sym.Bool("outsider-estimates") {
+		_, err := csrv.AddMessageEstimates(env.Ctx, &consensustypes.MsgAddMessageGasEstimates{Metadata: c09Meta(3),
+			Estimates: []*consensustypes.MsgAddMessageGasEstimates_GasEstimate{{MsgId: id, QueueTypeName: c06Queue, Value: sym.Uint64("outsider-gas")}}})
+		if err == nil {
+			sym.Reach("outsider-estimate-accepted")
+		}
+	}
 	for v := 0; v < 3; v++ {
 		_, err := csrv.AddMessageEstimates(env.Ctx, &consensustypes.MsgAddMessageGasEstimates{Metadata: c09Meta(v),
 			Estimates: []*consensustypes.MsgAddMessageGasEstimates_GasEstimate{{MsgId: id, QueueTypeName: c06Queue, Value: gas}}})
@@ -134,7 +143,8 @@ func VerifC09_Blocks() {
 		_, err := csrv.SetErrorData(env.Ctx, &consensustypes.MsgSetErrorData{Metadata: c09Meta(0), MessageID: id, QueueTypeName: c06Queue, Data: []byte("boom")})
 		if err == nil {
 			sym.Reach("error-data-set")
-			for v := 0; v < 3; v++ {
+			env.AddValidator(3, 10_000_000, ChainA) // bonded, not in the snapshot
+			for v := 0; v < 4; v++ {
 				if sym.Bool("attests") {
 					proof, _ := codectypes.NewAnyWithValue(&evmtypes.SmartContractExecutionErrorProof{ErrorMessage: "boom"})
 					_, err := csrv.AddEvidence(env.Ctx, &consensustypes.MsgAddEvidence{Metadata: c09Meta(v), Proof: proof, MessageID: id, QueueTypeName: c06Queue})
